@@ -14,6 +14,7 @@ package engine
 // HTML escaping/invalid UTF-8 are not modelled, map keys must be concrete strings.
 
 import (
+	"encoding/base64"
 	"bytes"
 	"encoding/json"
 	"fmt"
@@ -469,7 +470,15 @@ func (e *Engine) jsonFromTree(n *jnode, t types.Type, old Value, depth int) Valu
 				}
 			}
 			if n.K == jStr {
-				panic(e.unsupported("json: []byte from base64 text"))
+				if str, ok := n.V.(Str); ok && str.IsConc() {
+					// concrete text: what encoding/json does (standard base64; bad text is an error)
+					raw, err := base64.StdEncoding.DecodeString(str.S)
+					if err != nil {
+						panic(jsonTypeErr{"illegal base64 data in JSON string"})
+					}
+					return e.mkConcByteSlice(raw)
+				}
+				panic(e.unsupported("json: []byte from symbolic base64 text"))
 			}
 			return mismatch()
 		}
